@@ -73,7 +73,7 @@ def exec_symbol(w, sym):
         return l[w.rnd.randrange(len(l))]
     if k == 'open': w.op_open(sym[1], sym[2])
     elif k == 'closeall': w.op_closeall(sym[1])
-    elif k == 'inittoken': w.op_inittoken(sym[1], sym[2])
+    elif k == 'inittoken': w.op_inittoken(sym[1], sym[2], null_label=False)
     elif k == 'close': w.op_close(sess_of(sym[1]))
     elif k == 'login': w.op_login(sess_of(sym[1]), sym[2], sym[3])
     elif k == 'logout': w.op_logout(sess_of(sym[1]))
@@ -132,6 +132,38 @@ def tour(job):
     shutil.rmtree(d, ignore_errors=True)
     return part
 
+def reauth_scenarios(ctx, backend):
+    """context-specific login (re-authentication for a CKA_ALWAYS_AUTHENTICATE key) never changes the login state of any session, with the right or a wrong PIN,
+    pending or not, under the user or under the SO (a request left pending by a session survives C_Logout)"""
+    import keymat
+    ck = ctx.ck; SO, U = b'so-pin-re', b'user-pin-re'
+    for variant in ('user', 'so', 'so-other-session', 'user-not-pending'):
+        for right in (False, True):
+            d = ctx.dir('reauth'); x = ctx.new_exec('asan', d, backend)
+            try:
+                assert x.call('C_Initialize', locking='os')['rv'] == 0; slot = x.call('C_GetSlotList', count=8)['slots'][-1]
+                assert x.call('C_InitToken', slot=slot, pin=SO.hex(), label=b're'.hex())['rv'] == 0
+                s1 = x.call('C_OpenSession', slot=slot)['h']; s2 = x.call('C_OpenSession', slot=slot)['h']
+                assert x.call('C_Login', s=s1, user=0, pin=SO.hex())['rv'] == 0 and x.call('C_InitPIN', s=s1, pin=U.hex())['rv'] == 0 and x.call('C_Logout', s=s1)['rv'] == 0
+                assert x.call('C_Login', s=s1, user=1, pin=U.hex())['rv'] == 0
+                k = x.call('C_CreateObject', s=s1, tmpl=x.T(dict(keymat.key_templates(ck)['ec_priv'], CKA_PRIVATE=True, CKA_TOKEN=False, CKA_ALWAYS_AUTHENTICATE=True, CKA_LABEL=b'aa')))
+                assert k['rv'] == 0, k
+                if variant != 'user-not-pending': assert x.call('C_SignInit', s=s1, key=k['h'], mech=x.M('CKM_ECDSA'))['rv'] == 0
+                want = 3
+                if variant.startswith('so'):
+                    assert x.call('C_Logout', s=s1)['rv'] == 0; assert x.call('C_Login', s=s1, user=0, pin=SO.hex())['rv'] == 0; want = 4
+                target = s2 if variant == 'so-other-session' else s1
+                cur = SO if variant.startswith('so') else U
+                r = x.call('C_Login', s=target, user=2, pin=(cur if right else b'wrong-pin-xx').hex())
+                for sx, nme in ((s1, 's1'), (s2, 's2')):
+                    i = x.call('C_GetSessionInfo', s=sx)
+                    if i['rv'] != 0 or i.get('state') != want:
+                        ctx.violation(f'C_Login(CONTEXT_SPECIFIC)|{variant},{"right" if right else "wrong"}-pin|login-state-changed({want}->{i.get("state")})', 'a context-specific login changed the login state of a session', {'variant': variant, 'right_pin': right, 'rv': r['rvname'], 'session': nme, 'backend': backend})
+                ctx.case(('reauth', variant, right, backend), sample={'scenario': 'context-specific login', 'variant': variant, 'right_pin': right, 'rv': r['rvname']} if right else None)
+                x.call('C_Finalize')
+            except AssertionError as e: ctx.inconc(f'reauth scenario setup failed: {e!r}')
+            finally: x.close()
+
 W = {'open': 6, 'close': 3, 'closeall': 1, 'login': 6, 'logout': 3, 'inittoken': 1, 'initpin': 2, 'setpin': 2, 'create': 1, 'find': 1, 'restart': 1}
 def run(ctx):
     ctx.need('asan'); bound = ctx.q(4, 5)
@@ -146,6 +178,7 @@ def run(ctx):
     ctx.extra.update(states=len(graph) + ctx.extra.get('states_3_tokens', 0), transitions=nedges, traces_validated_against_impl=ctx.extra.get('edges_executed', 0), exhaustive=(left == 0 and not ctx.inconclusive),
                      bound=f'<= {bound} sessions, {NTOK} tokens', checker_cmd='./check C03 --tier ' + ctx.tier)
     if left: ctx.inconc(f'{left} edges of the abstract graph were not executed')
+    for b in ctx.q(('file',), ('file', 'db')): reauth_scenarios(ctx, b)
     # random walks beyond the bound (up to 5 sessions, object operations and restarts mixed in)
     run_walks(ctx, {'C03'}, ctx.q(150, 2500), ctx.q(80, 200), weights=W, backends=ctx.q(('file',), ('file', 'db')), monitors=('state',))
     ctx.rule = ('exhaustive: every edge (abstract state, symbol) of the model graph is executed once on the real library by an edge tour (distinct = edges executed with model and library in that state); '
